@@ -5,7 +5,7 @@
 //
 //	R <N> <C> <faulty csv|-> <proposers csv> op;op;…
 //	  P,<to>,<p>,<ver>                       the proposal (version ver) of proposer p reaches honest node <to>
-//	  T,<i>,<k>                              timer k fires at honest node i (0 propose, 1 2nd-propose, 2 endorse, 3 endorse-empty, 4 commit)
+//	  T,<i>,<k>                              timer k fires at honest node i (0 propose, 1 2nd-propose, 2 endorse, 3 endorse-empty)
 //	  D,<i>,<k>,<to> / DO,<i>,<to> / DX,<i>  k-th broadcast of honest i reaches <to> / all its broadcasts so far reach <to> / reach everybody
 //	  X,<f>,<kind>,<p>,<ver>,<fe>,<as>,<to>  Byzantine f sends to <to> a message about proposal (p,ver): kind e = endorsement,
 //	                                         c = commit (both genuinely signed with f's key), fc = commit whose EndorsersSig
@@ -402,11 +402,8 @@ func genServerLine(r *hx.Rand) string {
 				}
 			}
 			if r.Chance(40) {
-				add("T,%d,%d", H[r.Intn(len(H))], r.Intn(5))
+				add("T,%d,%d", H[r.Intn(len(H))], r.Intn(4))
 			}
-		}
-		for _, n := range H {
-			add("T,%d,4", n)
 		}
 	case 2: // two honest proposers, leader's proposal slow towards some nodes (proposal timeouts)
 		L1, L2 := H[0], H[len(H)-1]
@@ -438,9 +435,6 @@ func genServerLine(r *hx.Rand) string {
 				}
 			}
 		}
-		for _, n := range H {
-			add("T,%d,4", n)
-		}
 	case 3: // Byzantine leader equivocates, each version backed by a commit with forged EndorsersSig
 		proposers = []int{f, H[0]}
 		x, y := H[0], H[1+r.Intn(len(H)-1)]
@@ -457,10 +451,9 @@ func genServerLine(r *hx.Rand) string {
 		add("T,%d,0", c)
 		add("P,%d,%d,0", a, f)
 		add("DO,%d,%d", a, b)
-		add("X,%d,e,%d,0,0,%d,%d", f, a, f, c)
-		add("T,%d,4", c)
+		add("X,%d,c,%d,0,0,%d,%d", f, a, f, c)
 		if r.Chance(50) {
-			add("T,%d,4", b)
+			add("DO,%d,%d", b, a)
 		}
 	case 5: // Byzantine node speaks in other peers' names / random Byzantine traffic on top of an honest round
 		L := H[r.Intn(len(H))]
@@ -480,9 +473,6 @@ func genServerLine(r *hx.Rand) string {
 				add("DX,%d", H[r.Intn(len(H))])
 			}
 		}
-		for _, n := range H {
-			add("T,%d,4", n)
-		}
 	default: // random schedule
 		proposers = []int{H[r.Intn(len(H))], r.Intn(N)}
 		if proposers[0] == proposers[1] {
@@ -499,7 +489,7 @@ func genServerLine(r *hx.Rand) string {
 				}
 				add("P,%d,%d,%d", n, p, ver)
 			case 2:
-				add("T,%d,%d", n, r.Intn(5))
+				add("T,%d,%d", n, r.Intn(4))
 			case 3, 4:
 				add("DX,%d", n)
 			case 5:
@@ -511,9 +501,6 @@ func genServerLine(r *hx.Rand) string {
 					add("X,%d,%s,%d,%d,%s,%d,%d", f, []string{"e", "c", "fc"}[r.Intn(3)], proposers[r.Intn(2)], r.Intn(2), fb(r.Chance(20)), []int{f, r.Intn(N)}[r.Intn(2)], n)
 				}
 			}
-		}
-		for _, n := range H {
-			add("T,%d,4", n)
 		}
 	}
 	ps := fmt.Sprintf("%d,%d", proposers[0], proposers[1])
